@@ -232,6 +232,7 @@ def gen_method_design(rng):
   bi = 0
   decl, blks = [], []
   ncallers = 0
+  via_func = [0]
   for c, (nm, ncu, kinds) in enumerate(comps):
     for j in range(nm):
       for _ in range(rng.choice([0, 1, 1, 1, 2])):
@@ -253,7 +254,13 @@ def gen_method_design(rng):
           decl.append(f"    s.q{bn} = CallerPort(); connect(s.q{bn}, s.mid.c{c}.m{j})"); call = f"s.q{bn}()"
         else:
           call = f"s.mid.c{c}.m{j}()"
-        blks += ["    @update_once", f"    def {bn}():", f"      LOG.append(('b', '{bn}'))", "      " + call]
+        if rng.random() < 0.3:
+          # the method is called inside an @s.func helper of the block
+          blks += ["    @s.func", f"    def h{bn}():", "      " + call,
+                   "    @update_once", f"    def {bn}():", f"      LOG.append(('b', '{bn}'))", f"      h{bn}()"]
+          via_func[0] += 1
+        else:
+          blks += ["    @update_once", f"    def {bn}():", f"      LOG.append(('b', '{bn}'))", "      " + call]
   L += decl + blks
   if not blks:
     L.append("    pass")
